@@ -306,9 +306,12 @@ func (e *eng) dirCase(r layRow, sub bool) {
 // ---------------------------------------------------------------------------
 // C10 variables
 
+// values carry characters that a mark-up aware template engine would rewrite
+const varTail = "+&<>'x"
+
 func (e *eng) varCase(r layRow, i int) {
 	d := e.env.Sub("var")
-	v := func(l int) string { return fmt.Sprintf("v%d", r.val(l)) }
+	v := func(l int) string { return fmt.Sprintf("v%d%s", r.val(l), varTail) }
 	var y strings.Builder
 	if r.has(1) {
 		fmt.Fprintf(&y, "variables:\n  w: %s\n", yq(v(1)))
@@ -325,7 +328,7 @@ func (e *eng) varCase(r layRow, i int) {
 	if r.has(3) {
 		fmt.Fprintf(&y, "    variables:\n      w: %s\n", yq(v(3)))
 	}
-	fmt.Fprintf(&y, "    command:\n      - echo first >> %s\n      - echo \"OBS w=[{{.w}}] root=[{{.Root}}] tmp=[{{.TempDir}}] args=[{{.Args}}] list={{.ArgsList}} o=[{{.other}}]\"\n", filepath.Join(d, "trace"))
+	fmt.Fprintf(&y, "    command:\n      - echo first >> %s\n      - echo \"OBS w=[{{.w}}] root=[{{.Root}}] tmp=[{{.TempDir}}] args=[{{.Args}}] list={{.ArgsList}} o=[{{.other}}] e=[{{.emp}}]\"\n", filepath.Join(d, "trace"))
 	y.WriteString("pipelines:\n  p:\n    - task: t\n")
 	if r.has(4) {
 		fmt.Fprintf(&y, "      variables:\n        w: %s\n", yq(v(4)))
@@ -336,7 +339,7 @@ func (e *eng) varCase(r layRow, i int) {
 		args = append(args, "--set", "w="+v(2))
 	}
 	// one --set is one assignment, whatever its value contains (commas, further NAME= pairs, '=')
-	args = append(args, "--set", "other=a,w=hijacked=1")
+	args = append(args, "--set", "other=a,w=hijacked=1", "--set", "emp=") // (and an assignment of the empty value)
 	if r.Mode == "stage" {
 		// the pipeline, then a direct run of the same task: the stage's variables must be gone
 		args = append(args, "p", "t")
@@ -360,7 +363,7 @@ func (e *eng) varCase(r layRow, i int) {
 		}
 	}
 	line := func(x int) string {
-		return fmt.Sprintf("w=[v%d] root=[%s] tmp=[%s] args=[] list=[] o=[a,w=hijacked=1]", x, dd, os.TempDir())
+		return fmt.Sprintf("w=[v%d%s] root=[%s] tmp=[%s] args=[] list=[] o=[a,w=hijacked=1] e=[]", x, varTail, dd, os.TempDir())
 	}
 	var want []string
 	wantFail := false
